@@ -51,6 +51,7 @@ pub struct Run {
     pub low: String,
     pub warnings: Vec<String>,
     pub map_normal: Vec<MapTok>,
+    pub map_low: Vec<MapTok>,
     pub map_roundtrip_equal: bool,
 }
 
@@ -65,6 +66,7 @@ pub fn run_transform(text: &str, o: StyleSheetOptions) -> Result<Run, String> {
         let mut sb = Vec::new();
         b.write(&mut sb).unwrap();
         let direct = collect(&a.extract_source_map());
+        let low_map = collect(&b.extract_source_map());
         // the serialised form, from a second identical run (extract / write both consume the output)
         let t2 = StyleSheetTransformer::from_css("sheet.wxss", text, o);
         let (a2, _) = t2.output_and_low_priority_output();
@@ -75,7 +77,7 @@ pub fn run_transform(text: &str, o: StyleSheetOptions) -> Result<Run, String> {
             Some(r) => r.len() == direct.len() && r.iter().zip(direct.iter()).all(|(x, y)| x.dst_line == y.dst_line && x.dst_col == y.dst_col && x.src_line == y.src_line && x.src_col == y.src_col && x.name == y.name),
             None => false,
         };
-        Run { normal: String::from_utf8(sa).unwrap_or_default(), low: String::from_utf8(sb).unwrap_or_default(), warnings, map_normal: direct, map_roundtrip_equal: equal }
+        Run { normal: String::from_utf8(sa).unwrap_or_default(), low: String::from_utf8(sb).unwrap_or_default(), warnings, map_normal: direct, map_low: low_map, map_roundtrip_equal: equal }
     }))
     .map_err(panic_message)
 }
@@ -158,7 +160,7 @@ impl PropCheck for C17 {
                 sheet,
                 style,
                 opts,
-                convert_host: if prop == "C17" { ch } else { false },
+                convert_host: if prop == "C17" { ch } else if prop == "C08" { false } else { ch && style % 3 != 0 },
                 host_is: host_is.map(|s| s.to_string()),
                 import_sign: if prop == "C18" && sign { Some("IMP".into()) } else { None },
             })
@@ -229,11 +231,34 @@ pub fn eval_case(prop: &'static str, c: &Case) -> Outcome {
     out.units = model.len() as u64;
     let normal_ok = issues.iter().all(|i| i.class == "number");
     // low-priority output
-    let low_items = exp_low.items();
+    let low_items = exp_low.items_marked(true);
     let low_model = ocss::model_tokens(&low_items);
     let (low_toks, low_trailing) = ocss::tokenize_full(&run.low);
     let mut low_issues = vec![];
-    align_full(&low_model, &low_toks, &low_trailing, Some(&c.opts), None, &run.low, &mut low_issues, false, &mut vec![]);
+    let mut low_pairs = vec![];
+    align_full(&low_model, &low_toks, &low_trailing, Some(&c.opts), None, &run.low, &mut low_issues, false, &mut low_pairs);
+    if prop == "C19" && low_issues.iter().all(|i| i.class == "number") {
+        // low-priority output: every token written through the token path (everything but the replayed wrappers) has an
+        // entry at its generated column, and entries are ordered
+        let mut prev = (0u32, 0u32);
+        for t in &run.map_low {
+            if (t.dst_line, t.dst_col) < prev {
+                issues.push(Issue { class: "map", key: "low:order".into(), what: "low-priority source-map entries are not in output order".into() });
+                break;
+            }
+            prev = (t.dst_line, t.dst_col);
+        }
+        for (mi, oi) in &low_pairs {
+            if low_model[*mi].0.wrapper {
+                continue;
+            }
+            let ot = &low_toks[*oi];
+            if ot.line == 0 && !run.map_low.iter().any(|e| e.dst_line == 0 && e.dst_col == ot.col) {
+                issues.push(Issue { class: "map", key: "low:missing-entry".into(), what: format!("low-priority output token {:?} at column {} has no source-map entry with that generated column (low output {:?})", ot.kind, ot.col, crate::util::truncate(&run.low, 120)) });
+                break;
+            }
+        }
+    }
     for mut i in low_issues {
         i.key = format!("low:{}", i.key);
         i.what = format!("low-priority output: {}", i.what);
@@ -300,8 +325,9 @@ fn source_map_issues(c: &Case, printed: &css::Printed, _exp_items: &[css::Item],
         // the token stream itself is wrong (C08's subject): positions cannot be attributed
         return;
     }
-    // with no import / host rewriting the expected tokens are exactly the printed model tokens, so pairs index into them
-    let model = ocss::model_tokens(&printed.items);
+    // the expected normal tokens are the printed model tokens minus the `:host` rules (when converted), so pairs index into them
+    let kept: Vec<css::Item> = printed.items.iter().filter(|it| !(c.convert_host && matches!(it, css::Item::T(t) if t.host))).cloned().collect();
+    let model = ocss::model_tokens(&kept);
     let line_starts: Vec<usize> = std::iter::once(0).chain(run.normal.match_indices('\n').map(|(i, _)| i + 1)).collect();
     let _ = line_starts;
     // open-bracket positions for "a closing bracket may point at its opening bracket"
@@ -379,8 +405,11 @@ pub fn run(prop: &'static str, tier: Tier, seed: u64, findings: &Findings) -> i3
     let mut ccfg = gen::css::CssCfg::new();
     match prop {
         "C17" => ccfg.hosts = true,
-        "C18" => ccfg.imports = true,
-        _ => {}
+        "C18" => {
+            ccfg.imports = true;
+            ccfg.hosts = true;
+        }
+        _ => ccfg.hosts = true,
     }
     let check = C17 { prop, cfg: ccfg };
     let mut report = engine::Report::default();
